@@ -26,7 +26,7 @@ PLAN = {
     "thorough": {"shards": 16, "shard_timeout": 3600, "case_timeout": 40, "grammars": 5000, "agree": 30000, "max_case_timeouts": 80},
 }
 THRESHOLDS = {
-    "quick": {"mapped:ge": 200, "mapped:sge": 200, "mapped:dsge": 200, "mapped:stack": 30, "refined_positions": 3000, "dependent_positions": 100, "agree_values": 2000, "repr:stack": 20, "repr:dsge": 50, "repr:ge": 50, "repr:sge": 50, "repr:tree": 100, "set:mh_kinds_seen": 8, "redeclared_grammars": 40},
+    "quick": {"cases_declared_with_string_annotations": 40, "mapped:ge": 200, "mapped:sge": 200, "mapped:dsge": 200, "mapped:stack": 30, "refined_positions": 3000, "dependent_positions": 100, "agree_values": 2000, "repr:stack": 20, "repr:dsge": 50, "repr:ge": 50, "repr:sge": 50, "repr:tree": 100, "set:mh_kinds_seen": 8, "redeclared_grammars": 40},
     "thorough": {"refined_positions": 50000, "dependent_positions": 2000, "agree_values": 50000, "set:mh_kinds_seen": 9},
 }
 
